@@ -60,6 +60,7 @@ impl Case<'_> {
         )
     }
     fn run(&self) -> Result<usize, String> {
+        set_breadcrumb(format!("case: {}\n", self.render()).as_bytes());
         match self.target {
             "chunker" => chunker_run(self.stream, self.block.unwrap_or(hcobs::DEFAULT_BLOCK_SIZE), self.sched, self.arena),
             _ => reader_run(self.stream, self.block, self.sched, self.judge.unwrap_or(Judge::Std(usize::MAX, None))),
@@ -325,6 +326,47 @@ fn crash_histories(ctx: &Ctx, rep: &mut Report, mode: Mode, unit: &mut usize) {
     ));
 }
 
+/// Family (iii): garbage segments that only a *lenient* decoder would accept: a valid first chunk,
+/// then a 2-byte header (lo, hi) for every lo and hi in {0, 1} with exactly the body a lenient
+/// reading of that header expects, delimited and followed by a good record.
+fn header_garbage(ctx: &Ctx, rep: &mut Report, mode: Mode, unit: &mut usize) {
+    if mode == Mode::Chunker {
+        return;
+    }
+    let prop = ctx.prop.clone();
+    let mut streams = 0u64;
+    for first in [vec![0u8], vec![1u8, 0x78]] {
+        for lo in 0..=255usize {
+            let u = *unit;
+            *unit += 1;
+            if !ctx.owns(u) {
+                continue;
+            }
+            for hi in [0usize, 1, 252, 253] {
+                let size = (lo + 253 * hi).min(70_000);
+                let mut s = first.clone();
+                s.push(lo as u8);
+                s.push(hi as u8);
+                s.extend(std::iter::repeat(0x55).take(size));
+                let seg_end = s.len();
+                s.extend_from_slice(&[0xFE, 0xFD, 0x01, 0x7A, 0xFE, 0xFD]);
+                // with and without a terminating empty chunk inside the segment
+                for term in [false, true] {
+                    let mut t = s.clone();
+                    if term {
+                        t.splice(seg_end..seg_end, [0u8, 0u8]);
+                    }
+                    let blocks: &[Option<usize>] = if size > 1000 { &[Some(4096)] } else { &[Some(3), Some(64)] };
+                    one_stream(rep, &prop, mode, &t, blocks, 0, false, &ARENA_STATES[..1]);
+                    streams += 1;
+                }
+            }
+        }
+    }
+    rep.count("header_garbage_streams", streams);
+    rep.note("family (iii): for both first-chunk shapes and every second-header byte pair (lo in 0..=255, hi in {0, 1, 252, 253}) a segment carrying exactly the body a lenient reading of that header would expect, with and without a terminating empty chunk, delimited and followed by a valid record: the reader must return it iff the reference decoder accepts it".to_string());
+}
+
 /// C10 clause: StreamReader footprint over long logs.
 fn footprint(ctx: &Ctx, rep: &mut Report, unit: &mut usize) {
     let prop = ctx.prop.clone();
@@ -455,6 +497,7 @@ fn run(ctx: &Ctx) -> Report {
         "C06" => {
             all_streams(ctx, &mut rep, Mode::Reader, &mut unit);
             crash_histories(ctx, &mut rep, Mode::Reader, &mut unit);
+            header_garbage(ctx, &mut rep, Mode::Reader, &mut unit);
         }
         "C08" => {
             all_streams(ctx, &mut rep, Mode::Chunker, &mut unit);
@@ -516,5 +559,12 @@ fn main() {
             "custom judges: skip-first (SkipRecord once, for a non-empty range) and skip-below-offset (SkipRecord whenever range.start < L, also for the empty range reported after a delimiter)".into(),
             "reference record list uses the reference decoder of mc_core::refcodec at production limits".into(),
         ],
+        decode_breadcrumb: Some(|ctx, bytes| {
+            let text = String::from_utf8_lossy(bytes).to_string();
+            if text.trim().is_empty() {
+                return None;
+            }
+            Some((format!("{}:abort:{}", ctx.prop, text.trim().replace(['\n', ' '], ";")), text))
+        }),
     });
 }
